@@ -7,6 +7,7 @@ package mailbox
 
 import (
 	"encoding/json"
+	"math"
 	"fmt"
 	"os"
 	"strconv"
@@ -142,7 +143,20 @@ func vAssert(c bool, msg string) {
 func vFail(msg string)     { vFailures = append(vFailures, msg) }
 func vReach(label string)  {}
 func vQuiesce()            {}
-func vAdvance(d time.Duration) { vClock += d }
+// vSynctest is set by the replay driver when the harness runs inside a
+// testing/synctest bubble: virtual time then advances by sleeping.
+var vSynctest bool
+
+func vAdvance(d time.Duration) {
+	if d < 0 {
+		panic(vAssumeFailed{})
+	}
+	vClock += d
+	if vSynctest {
+		time.Sleep(d)
+	}
+}
+func vF32(name string) float32 { return math.Float32frombits(uint32(vNum(name))) }
 func vLiveGoroutines() int { return 0 }
 func vLiveTimers() int     { return 0 }
 func vLiveTickers() int    { return 0 }
